@@ -450,96 +450,111 @@ inline uint64_t quickSig(World& w) {
 }
 
 // ------------------------------------------------------------------ canonical key
+// The key is produced through a sink: TextSink renders it as text (reports, diffs), HashSink digests the same field sequence into
+// 128 bits without building strings (the hot path).  One traversal, two renderings - they cannot diverge.
+struct TextSink {
+    std::string out;
+    void tag(const char* t) { out += ' '; out += t; }
+    void str(const XMLCh* s) { out += esc16(s); out += '|'; }
+    void num(long v) { char b[32]; snprintf(b, sizeof b, "%lx", v); out += b; }
+    void lab(int l, bool orig) { if (l == -1) out += '-'; else if (l == -2) out += '?'; else { out += orig ? '#' : '*'; out += std::to_string(l); } }
+    void sep() { out += ','; }
+    void endNode() { out += '\n'; }
+};
+struct HashSink {
+    uint64_t a = 1469598103934665603ULL, b = 0x243F6A8885A308D3ULL;
+    void u(uint64_t v) { a ^= v; a *= 1099511628211ULL; a ^= a >> 31; b = (b ^ v) * 0xFF51AFD7ED558CCDULL; b ^= b >> 29; }
+    void tag(const char* t) { u(0xE000 + (unsigned char)t[0] * 256 + (unsigned char)t[1]); }
+    void str(const XMLCh* s) { if (!s) { u(0xF001); return; } for (; *s; s++) u(*s); u(0xF002); }
+    void num(long v) { u((uint64_t)v + 0xA000000); }
+    void lab(int l, bool orig) { u((uint64_t)(l + 5) * 2 + (orig ? 1 : 0) + 0xB000000); }
+    void sep() {}
+    void endNode() { u(0xF003); }
+};
+
 struct KeyBuilder {
     World& w;
-    std::unordered_map<const DOMNode*, std::string> label;
-    std::string out;
-    KeyBuilder(World& w_) : w(w_) {}
-    std::string lab(const DOMNode* p) {
-        if (!p) return "-";
-        auto it = label.find(p);
-        return it == label.end() ? std::string("?") : it->second;
-    }
+    int nOrig;
+    std::unordered_map<const DOMNode*, int> label;   // canonical label: original nodes keep their id, created nodes are numbered in canonical order
+    std::vector<int> order;
+    KeyBuilder(World& w_, int nOrig_) : w(w_), nOrig(nOrig_) {}
+
     // shape string of the tree below id (no labels of created nodes), used to order created trees canonically
-    void shape(int id, int nOrig, std::string& s) {
+    void shape(int id, std::string& s) {
         const RNode& r = w.ref.d.n[id];
         s += '(';
         if (id < nOrig) s += "#" + std::to_string(id); else s += '*';
-        s += char('0' + r.type % 10); s += r.name; s += '|'; s += r.ns; s += '|'; s += r.data; s += r.udata ? "U" : "";
+        s += char('0' + r.type % 10); s += r.name.s(); s += '|'; s += r.ns.s(); s += '|'; s += r.data.s(); s += r.udata ? "U" : "";
         std::vector<std::pair<std::string, int>> as;
-        for (int a : r.attrs) as.push_back({w.ref.d.n[a].name + "|" + w.ref.d.n[a].ns, a});
+        for (int a : r.attrs) as.push_back({w.ref.d.n[a].name.s() + "|" + w.ref.d.n[a].ns.s(), a});
         std::sort(as.begin(), as.end());
-        for (auto& a : as) { s += '@'; shape(a.second, nOrig, s); }
-        for (int k : r.kids) shape(k, nOrig, s);
+        for (auto& a : as) { s += '@'; shape(a.second, s); }
+        for (int k : r.kids) shape(k, s);
         s += ')';
     }
-    void number(int id, int nOrig, int& next, std::vector<int>& order) {
+    void number(int id, int& next) {
         const RNode& r = w.ref.d.n[id];
         DOMNode* p = w.H(id);
-        label[p] = id < nOrig ? "#" + std::to_string(id) : "*" + std::to_string(next++);
+        label[p] = id < nOrig ? id : nOrig + next++;
         order.push_back(id);
-        // attributes in the order of the implementation's map (sorted by name: canonical)
-        if (r.type == EL) {
+        if (r.type == EL) {   // attributes in the order of the implementation's vector (sorted by name: canonical)
             DOMNamedNodeMap* m = p->getAttributes();
-            for (XMLSize_t j = 0; m && j < m->getLength(); j++) { int a = w.idOf(m->item(j)); if (a >= 0 && !label.count(m->item(j))) number(a, nOrig, next, order); }
+            for (XMLSize_t j = 0; m && j < m->getLength(); j++) { int a = w.idOf(m->item(j)); if (a >= 0 && !label.count(m->item(j))) number(a, next); }
         }
-        for (int k : r.kids) number(k, nOrig, next, order);
+        for (int k : r.kids) number(k, next);
     }
-    void dump(int id) {
-        DOMNode* p = w.H(id);
-        const RNode& r = w.ref.d.n[id];
-        char buf[64];
-        out += lab(p); out += ' ';
-        snprintf(buf, sizeof buf, "t%d ", (int)p->getNodeType()); out += buf;
-        out += esc16(p->getNodeName()); out += '|'; out += esc16(p->getNamespaceURI()); out += '|'; out += esc16(p->getPrefix()); out += '|';
-        out += esc16(p->getLocalName()); out += '|'; out += esc16(p->getNodeValue());
-        out += " P" + lab(p->getParentNode()) + " F" + lab(p->getFirstChild()) + " L" + lab(p->getLastChild()) + " p" + lab(p->getPreviousSibling()) +
-               " n" + lab(p->getNextSibling()) + " D" + lab(p->getOwnerDocument());
-        DOMNodeList* l = p->getChildNodes();
-        out += " C[";
-        for (XMLSize_t j = 0; l && j < l->getLength() && j < (XMLSize_t)WALK_MAX; j++) { out += lab(l->item(j)); out += ','; }
-        out += ']';
-        if (r.type == EL) {
-            DOMNamedNodeMap* m = p->getAttributes();
-            out += " A[";
-            for (XMLSize_t j = 0; m && j < m->getLength(); j++) { out += lab(m->item(j)); out += '>'; out += lab(((DOMAttr*)m->item(j))->getOwnerElement()); out += ','; }
-            out += ']';
-            DOMElementImpl* ei = dynamic_cast<DOMElementImpl*>(p);
-            out += ei->fAttributes->hasDefaults() ? " hd1" : " hd0";
-            snprintf(buf, sizeof buf, " da%d", (int)(ei->fDefaultAttributes ? ei->fDefaultAttributes->getLength() : -1)); out += buf;
-        }
-        if (r.type == ATTR) { out += " oe" + lab(((DOMAttr*)p)->getOwnerElement()); out += ((DOMAttr*)p)->getSpecified() ? " sp1" : " sp0"; }
-        out += p->getUserData(w.uKey) ? " u1" : " u0";
-        // hidden
-        DOMNodeImpl* ni = nodeImpl(p);
-        snprintf(buf, sizeof buf, " fl%x", (unsigned)ni->flags); out += buf;
-        out += " O" + lab(ni->fOwnerNode);
-        if (DOMChildNode* ci = childImpl(p)) out += " rp" + lab(ci->previousSibling) + " rn" + lab(ci->nextSibling);
-        if (DOMParentNode* pi = parentImpl(p)) out += " ff" + lab(pi->fFirstChild) + " fd" + lab(pi->fOwnerDocument);
-        if (r.type == DOC) { DOMDocumentImpl* di = dynamic_cast<DOMDocumentImpl*>(p); out += " de" + lab(di->fDocElement) + " dt" + lab(di->fDocType); }
-        out += '\n';
-    }
-    std::string build(int nOrig) {
+    void prepare() {
         const RDom& d = w.ref.d;
         std::vector<std::pair<std::string, int>> trees;  // (sort key, root)
         for (size_t i = 0; i < d.n.size(); i++) {
             const RNode& r = d.n[i];
             if (!r.live || r.parent != -1 || r.ownerEl != -1) continue;
             std::string s;
-            // documents first (so that their labels exist when other trees refer to them), then by shape
-            s += (r.type == DOC) ? '0' : '1';
-            shape((int)i, nOrig, s);
-            if (r.type != DOC) s += "/D" + std::to_string(d.docOf((int)i) < nOrig ? d.docOf((int)i) : -1);
+            s += (r.type == DOC) ? '0' : '1';   // documents first, then original roots by id, then created roots by shape
+            if ((int)i < nOrig) { char b[16]; snprintf(b, sizeof b, "#%04d", (int)i); s += b; }
+            else { s += "~"; shape((int)i, s); s += "/D" + std::to_string(d.docOf((int)i) < nOrig ? d.docOf((int)i) : -1); }
             trees.push_back({s, (int)i});
         }
         std::sort(trees.begin(), trees.end());
         int next = 0;
-        std::vector<int> order;
-        for (auto& t : trees) number(t.second, nOrig, next, order);
-        out.reserve(order.size() * 160);
-        for (int id : order) dump(id);
-        return out;
+        for (auto& t : trees) number(t.second, next);
     }
+    template <class S> void L(S& o, const DOMNode* p) {
+        if (!p) { o.lab(-1, false); return; }
+        auto it = label.find(p);
+        if (it == label.end()) o.lab(-2, false); else o.lab(it->second < nOrig ? it->second : it->second - nOrig, it->second < nOrig);
+    }
+    template <class S> void dump(S& o, int id) {
+        DOMNode* p = w.H(id);
+        const RNode& r = w.ref.d.n[id];
+        L(o, p); o.tag("t"); o.num(p->getNodeType()); o.tag("s");
+        o.str(p->getNodeName()); o.str(p->getNamespaceURI()); o.str(p->getPrefix()); o.str(p->getLocalName()); o.str(p->getNodeValue());
+        o.tag("P"); L(o, p->getParentNode()); o.tag("F"); L(o, p->getFirstChild()); o.tag("L"); L(o, p->getLastChild());
+        o.tag("p"); L(o, p->getPreviousSibling()); o.tag("n"); L(o, p->getNextSibling()); o.tag("D"); L(o, p->getOwnerDocument());
+        DOMNodeList* l = p->getChildNodes();
+        o.tag("C");
+        for (XMLSize_t j = 0; l && j < (XMLSize_t)WALK_MAX; j++) { DOMNode* k = l->item(j); if (!k) break; L(o, k); o.sep(); }
+        if (r.type == EL) {
+            DOMNamedNodeMap* m = p->getAttributes();
+            o.tag("A");
+            for (XMLSize_t j = 0; m && j < m->getLength(); j++) { L(o, m->item(j)); o.tag(">"); L(o, ((DOMAttr*)m->item(j))->getOwnerElement()); o.sep(); }
+            DOMElementImpl* ei = dynamic_cast<DOMElementImpl*>(p);
+            o.tag("hd"); o.num(ei->fAttributes->hasDefaults() ? 1 : 0);
+            o.tag("da"); o.num(ei->fDefaultAttributes ? (long)ei->fDefaultAttributes->getLength() : -1);
+        }
+        if (r.type == ATTR) { o.tag("oe"); L(o, ((DOMAttr*)p)->getOwnerElement()); o.tag("sp"); o.num(((DOMAttr*)p)->getSpecified() ? 1 : 0); }
+        o.tag("u"); o.num(p->getUserData(w.uKey) ? 1 : 0);
+        // hidden
+        DOMNodeImpl* ni = nodeImpl(p);
+        o.tag("fl"); o.num(ni->flags);
+        o.tag("O"); L(o, ni->fOwnerNode);
+        if (DOMChildNode* ci = childImpl(p)) { o.tag("rp"); L(o, ci->previousSibling); o.tag("rn"); L(o, ci->nextSibling); }
+        if (DOMParentNode* pi = parentImpl(p)) { o.tag("ff"); L(o, pi->fFirstChild); o.tag("fd"); L(o, pi->fOwnerDocument); }
+        if (r.type == DOC) { DOMDocumentImpl* di = dynamic_cast<DOMDocumentImpl*>(p); o.tag("de"); L(o, di->fDocElement); o.tag("dt"); L(o, di->fDocType); }
+        o.endNode();
+    }
+    std::string text() { prepare(); TextSink t; t.out.reserve(order.size() * 160); for (int id : order) dump(t, id); return t.out; }
+    void digest(uint64_t& a, uint64_t& b) { prepare(); HashSink h; for (int id : order) dump(h, id); a = h.a; b = h.b; }
 };
 
 }  // namespace c13
